@@ -94,14 +94,15 @@ PROPS = {
                         'when no gzip layer is in between)',
                         'the http.ResponseWriter automaton (first Write sends 200, later WriteHeader ignored, ErrAbortHandler aborts) is modelled, '
                         'not verified']},
-    'C19': {
+    'C19': {   'always_cmds': [['manyshards']],
+       
         'engines': [('coord2', 600, 12000, ['-shardsize', '100'])],
         'rule': 'two replicas A,B from the coord generator sharing options, discovery and explorer results (explorer objects never scraped: '
                 'times 0, normal state); 1/6 of the cases A fails to list its shards; A also fails its early scale request, is unready, or '
                 'holds a different placement of the same targets by construction of the generator. The real Coordinator runs B alone and '
                 '[A,B] in one run; B\'s and A\'s shards\' request logs, POST bodies and scale requests are compared with the model under all '
                 'schedules; the property monitor demands equality of B-alone and B-with-A whenever the model says B is confluent. '
-                'non-trivial = B sent a target POST or requested a different scale; distinct by input',
+                'non-trivial = B sent a target POST or requested a different scale; distinct by input || manyshards, in every run: one real cycle over a replica of 40 ready but silent shards and 4 healthy ones, and a second replica, in both orders: the cycle completes and the other replica is coordinated',
         'theorems': 'C19_stage_order C19_independent C19_first_is_explorer_object C19_moved_not_fresh (+ C01/C04/C05/C07/C08 per replica)',
         'trusted_base': ['the per-replica cycle model (see C01) run once per replica; pointer sharing of explorer objects is replaced by value '
                          'semantics, justified by C19_moved_not_fresh and validated by the two-replica differential run'],
@@ -130,7 +131,8 @@ PROPS = {
     'trusted_base': [   'model Model/Sidecar.v hand-written from targets.go/service.go/proxy.go/status.go; tie = step-by-step differential run '
                         '(exact equality of projected observables)',
                         'hook VerifSetTimeNow (clock); JobInfo.Cli replaced by an in-memory RoundTripper']},
-    'C14': {   'assumptions': [   "the integer mean is Go's int64(float64(sum)/float64(n)), modelled exactly (Float64.div_round); equality with floor(sum/n) "
+    'C14': {   'always_cmds': [['bigpayload']],
+          'assumptions': [   "the integer mean is Go's int64(float64(sum)/float64(n)), modelled exactly (Float64.div_round); equality with floor(sum/n) "
                        'for sums < 2^53 is validated differentially, not proved',
                        "relabel.Process is a function of the sample's own labels"],
     'engines': [('sidecar', 400, 10000, ['-propok', 'c14_case', '-shardsize', '100']), ('stats', 600, 20000, ['-shardsize', '300'])],
@@ -141,7 +143,7 @@ PROPS = {
             '(adds, removals, state flips, repeats, empty sets, moves between jobs, 1/15 with a failing callback), proxied scrapes of assigned and '
             'unassigned targets (ok with known kept/dropped sample counts, connection failure, HTTP 500, body breaking off; 1/12 with a stop '
             'reason; 1/8 against a job whose http client the shard does not have - never an operation of the model, whatever it records shows at the next observation), restarts (new manager AND new injector on the same store dir, the configuration reaching the injector before or after the stored assignment, alternating); the real Injector is wired as in cmd/kvass/sidecar.go (first update callback, reload callback) and the file it writes is loaded as Prometheus would after every op; 1/4 of the histories start on a store directory that holds a store file of the old format; 1/4 of the new targets arrive with an estimate above their total; the status text is classified (nothing / stop reason / connection / HTTP status / body); observed after start-up and after every op: /targets/status/, /runtimeinfo/ and /samples/?with_metrics_detail=true (read twice: per job the kept samples and the (kept, all) counts of the two metrics of the payloads). '
-            'non-trivial = history of >= 3 ops; distinct by input || stats engine: 1-3 blocks of 0-6 (0-30) samples over 3 metrics x 3 optional '
+            'non-trivial = history of >= 3 ops; distinct by input || bigpayload, in every run: payloads of 300 KB (several blocks of the stream parser, served in 16 KiB reads) with 3000/3000, 1/6000 and 6000/1 kept/dropped samples through the real proxy: /samples/ and the status show the counts known by construction || stats engine: 1-3 blocks of 0-6 (0-30) samples over 3 metrics x 3 optional '
             'labels, exact duplicates, 0-2 keep/drop rules with literal regexes on __name__ or a label; real exposition parser + real '
             'relabel.Process; non-trivial = >= 2 samples',
     'theorems': 'C14_counts C14_block_order C14_window C14_runtime C14_samples_add_up C14_last_statistics',
@@ -150,7 +152,8 @@ PROPS = {
                         'hook VerifSetTimeNow (clock); JobInfo.Cli replaced by an in-memory RoundTripper',
                         'Model/Stats.v: keep is an arbitrary function in the theorems; the correspondence instantiates it with a keep/drop '
                         'interpreter for literal regexes']},
-    'C01': {   'assumptions': [   'series/total/limits below 2^53 (float64 products exact in Base/Float64.v); int32/int64 overflow not modelled',
+    'C01': {   'always_cmds': [['manyshards']],
+          'assumptions': [   'series/total/limits below 2^53 (float64 products exact in Base/Float64.v); int32/int64 overflow not modelled',
                        'explorer objects are not mutated within a cycle (value semantics; validated by the differential run)',
                        'time.Now() drift during the run is far below the idle-age margins used by the generator'],
     'engines': [('coord', 1200, 24000, ['-propok', 'c01_case', '-shardsize', '100'])],
@@ -165,7 +168,7 @@ PROPS = {
             'limits, at the relief thresholds (1.1,1.4,1.6,1.8 x), tied with shard 0 on purpose; idle ages 30s..100000s vs max-idle 0/60/3600; '
             'min/max shard around the current count; explorer results present/absent/bad/unknown; failing POSTs and failing early scale request; '
             'malformed stream: min>max, max_proc=0. Membership under ALL schedules of the model (enumerated, budget 6000). non-trivial = the cycle '
-            'sent at least one target POST or requested a scale different from the current count; distinct by input',
+            'sent at least one target POST or requested a scale different from the current count; distinct by input || manyshards, in every run: one real cycle over a replica of 40 ready but silent shards and 4 healthy ones, and a second replica, in both orders: the cycle completes and the healthy shards and the other replica are served',
     'theorems': 'C01_no_orphan C01_taken_only_if C01_closed_loop',
     'trusted_base': [   'model Model/Coordinator.v hand-written from rebalance.go/coordinator.go/shard.go; tie = differential run of the real '
                         'Coordinator (hook VerifRunOnce) against scripted shards through Shard.APIGet/APIPost, compared under every schedule of the '
@@ -322,8 +325,10 @@ PROPS = {
                       'theorems: arbitrary regular expressions (the unmodelled stream compares reference and system only).',
         'level_note': 'Trusted: Coq kernel; hand-written two-route model validated three ways on every run; hypotheses of the theorem as listed.',
     },
-    'C03': {'engines': [('loop', 120, 3000, ['-shardsize', '10'])], 'rule': "one PRNG: limits (process 60/100/200, head none/half/equal), max-shard 4-6, min-shard 0-1, max-idle 0 or 600 s, relief (alleviation) disabled in 1 of 4; 1-5 (1-7) targets with sizes from 1 to limit-1 (total >= series), 1/9 unhealthy, 1/10 not discovered; 1-3 initial shards; initial placement empty (the system builds it) or ARBITRARY (each target on each shard with probability 1/3, 1/5 of the copies in_transfer: duplicates, pending transfers without partner, overload); a prefix of 0-4 events: rounds with or without a fault (a target update lost, a shard unreachable / not ready / refusing the configuration for that cycle), sidecar restarts (new process on the same store directory, default configuration), changes of the discovered set; then 14 fault-free rounds (cycle, every assigned copy scraped 3 times through the real proxy, 400 s pass). Real Coordinator (hook VerifRunOnce) against real TargetsManager+Service+Proxy per shard through Shard.APIGet/APIPost closures (JSON intact), a simulated StatefulSet following the last scale request, idle-since instants mapped between the world clock and the coordinator's clock. Observed after every step: every sidecar's /targets/status/ and /runtimeinfo/, POST bodies and scale requests of every cycle. non-trivial = all; distinct by input", 'theorems': 'C03_place_or_grow C03_placed_or_counted C03_needed_space_grows_the_replica C03_relief_need_nonnegative C03_orphan_transfer_recovered C03_in_transfer_has_partner C03_tie_broken_by_position C03_one_normal_copy_after_cleaning C03_ripe_cycle_gives_clean_plan C03_world_follows_plan C03_ripe_world_becomes_clean C03_scrape_round_counts C03_settled_is_fixpoint C03_settled_updates_repeat_the_assignment C03_settled_world_unchanged C03_clean_from_the_second_round C03_cycle_places_or_grows C03_sizes_stay_counts C03_placed_or_at_cap C03_converges_in_regime C03_clean_held_world_is_settled C03_converged_stays (+ C03_settled_example, C03_converges_example, computed convergence example)', 'trusted_base': ["Model/World.v composes Model/Sidecar.v and Model/Coordinator.v with a StatefulSet and fault steps; it is run in LOCK STEP with the real closed loop: before every cycle the model builds the coordinator's input from ITS OWN sidecar states, the implementation's POST bodies / scale requests must be one of the model's outcomes (all schedules), and after every step every sidecar's reported state must equal the model's", 'the explorer and discovery are scripted by the harness (their behaviour is C20 / C17)', 'hooks: VerifRunOnce, VerifSetTimeNow'], 'assumptions': ['convergence bound: 14 fault-free rounds are enough for the generated sizes (<= 7 targets, <= 6 shards); a history that needs more would be reported as a violation', 'fairness: every assigned copy is scraped 3 times per round; a scale request takes effect before the next cycle; new shards start empty with the default configuration', 'the liveness statement itself (convergence within a bound from every well-formed world) is one theorem only in the regime without relief and consolidation (alleviation disabled, idle time-out 0): C03_converges_in_regime + C03_converged_stays; outside it see Properties/C03.v STATUS'], 'level_text': "Proof (partial): for every input and every iteration order - an eligible target that assignment visits is placed or its size is added to the needed space; needed space from relief is never negative; non-zero needed space with all shards in sync asks for more than the current count, and clamping keeps that below max-shard (place-or-grow for one whole cycle); an in_transfer copy without partner is normal after the recovery pass and nothing stays in_transfer without one; equal loads no longer keep both copies of a duplicate; the cleaning step as a whole - whatever the in-sync shards report of a discovered target (any number of duplicates, pending transfers with or without partner), once every copy was scraped three times it is on exactly one in-sync shard in normal state after this cycle's garbage collection and recovery pass, for every visiting order (C03_one_normal_copy_after_cleaning), and with no relief to do the whole planning part (gc, recovery, assignment) yields a clean plan - every entry a discovered target in normal state, no target on two shards (C03_ripe_cycle_gives_clean_plan); in the closed-loop model the sidecars hold exactly the final plan after a fault-free cycle (C03_world_follows_plan), so a ripe world with no relief to do is a clean world after ONE cycle (C03_ripe_world_becomes_clean); and the second half of the statement - a settled placement (all in sync, every copy of a discovered target in normal state on exactly one shard, no shard above a relief threshold, every discovered target held or not assignable, idle time-out off) is a fixpoint of the cycle under every schedule: no event, the scale request is the current count, whatever update is still sent repeats the reported assignment, and in the closed-loop model every sidecar keeps its status map and the shard count stays. BOUNDED CONVERGENCE AS ONE THEOREM in the regime without relief and consolidation (alleviation disabled, idle time-out 0, 0 < max-process, min-shard <= max-shard), over the closed-loop model: from EVERY well-formed world (duplicates, pending transfers, leftovers, any counters) and under EVERY iteration order, after max(2, max-shard - shards + 1) calm rounds the world is clean (every held target discovered, in normal state, on exactly one shard) and every eligible discovered target is held unless the replica reached max-shard (C03_converges_in_regime; steps C03_clean_from_the_second_round, C03_cycle_places_or_grows, C03_placed_or_at_cap, C03_sizes_stay_counts), and a clean world whose discovered targets are all held or unplaceable is settled and keeps its placement in every further round (C03_clean_held_world_is_settled, C03_converged_stays). Not proved: the bound outside that regime (relief / consolidation keep starting moves depending on the sizes of the workload); that is validated on the REAL closed loop (lock-step model agreement after every step, end states converged and stable).", 'level_note': 'Trusted: Coq kernel; hand-written closed-loop model validated in lock step; convergence is proved in the regime without relief / consolidation and checked on runs outside it.'},
-    'C06': {'engines': [('loop', 120, 3000, ['-shardsize', '10', '-propok', 'c06_case'])], 'rule': "one PRNG: limits (process 60/100/200, head none/half/equal), max-shard 4-6, min-shard 0-1, max-idle 0 or 600 s, relief (alleviation) disabled in 1 of 4; 1-5 (1-7) targets with sizes from 1 to limit-1 (total >= series), 1/9 unhealthy, 1/10 not discovered; 1-3 initial shards; initial placement empty (the system builds it) or ARBITRARY (each target on each shard with probability 1/3, 1/5 of the copies in_transfer: duplicates, pending transfers without partner, overload); a prefix of 0-4 events: rounds with or without a fault (a target update lost, a shard unreachable / not ready / refusing the configuration for that cycle), sidecar restarts (new process on the same store directory, default configuration), changes of the discovered set; then 14 fault-free rounds (cycle, every assigned copy scraped 3 times through the real proxy, 400 s pass). Real Coordinator (hook VerifRunOnce) against real TargetsManager+Service+Proxy per shard through Shard.APIGet/APIPost closures (JSON intact), a simulated StatefulSet following the last scale request, idle-since instants mapped between the world clock and the coordinator's clock. Observed after every step: every sidecar's /targets/status/ and /runtimeinfo/, POST bodies and scale requests of every cycle. non-trivial = all; distinct by input", 'theorems': 'C06_faults_preserve_wf_cycle C06_faults_preserve_wf_step C06_invariant_kept_by_faulty_cycle C06_no_target_lost_by_faults C06_no_target_in_transfer_for_ever C06_no_duplicate_for_ever C06_duplicate_resolved_in_one_cycle C06_one_copy_left_after_one_walk C06_none_unscraped C06_invariants_kept_by_every_history C06_recovers_after_faults (+ C06_recovers_example, computed recovery example)', 'trusted_base': ["Model/World.v composes Model/Sidecar.v and Model/Coordinator.v with a StatefulSet and fault steps; it is run in LOCK STEP with the real closed loop: before every cycle the model builds the coordinator's input from ITS OWN sidecar states, the implementation's POST bodies / scale requests must be one of the model's outcomes (all schedules), and after every step every sidecar's reported state must equal the model's", 'the explorer and discovery are scripted by the harness (their behaviour is C20 / C17)', 'hooks: VerifRunOnce, VerifSetTimeNow'], 'assumptions': ['convergence bound: 14 fault-free rounds are enough for the generated sizes (<= 7 targets, <= 6 shards); a history that needs more would be reported as a violation', 'fairness: every assigned copy is scraped 3 times per round; a scale request takes effect before the next cycle; new shards start empty with the default configuration', 'bounded recovery is one theorem only in the regime without relief and consolidation (alleviation disabled, idle time-out 0): C06_recovers_after_faults; outside it see Properties/C03.v STATUS'], 'level_text': 'Proof (partial): every fault step (lost update, unreachable / unready / out-of-sync shard, restart, scaling) and every cycle with any POST bodies keeps every sidecar well formed (C10 invariant), for all histories; the whole-world invariant is kept by every faulty cycle of the model under every schedule, and through every such history a discovered target that some sidecar holds is never lost (C06_no_target_lost_by_faults: composition of C01, C07, C08, C10); the states faults leave behind and the original code never left - an in_transfer copy without partner, equally loaded duplicates - are left in one cycle; an unscraped eligible target is placed or the replica grows. BOUNDED RECOVERY AS ONE THEOREM in the regime without relief and consolidation (alleviation disabled, idle time-out 0): after ANY history of cycles with faults under any iteration order, scrape rounds, ticks, sidecar restarts and changes of the discovered set, max(2, max-shard - shards + 1) calm rounds make the world clean and every eligible discovered target held by exactly one shard in normal state unless max-shard is reached (C06_recovers_after_faults, resting on C06_invariants_kept_by_every_history and the C03 convergence theorem). Not proved: the bound outside that regime (inherits C03); validated on the real closed loop with injected faults followed by 14 fault-free rounds.', 'level_note': 'Trusted: Coq kernel; hand-written closed-loop model validated in lock step; recovery is proved in the regime without relief / consolidation and checked on runs outside it.'},
+    'C03': {   'always_cmds': [['bigshard'], ['waitloop']],
+       'engines': [('loop', 120, 3000, ['-shardsize', '10'])], 'rule': "one PRNG: limits (process 60/100/200, head none/half/equal), max-shard 4-6, min-shard 0-1, max-idle 0 or 600 s, relief (alleviation) disabled in 1 of 4; 1-5 (1-7) targets with sizes from 1 to limit-1 (total >= series), 1/9 unhealthy, 1/10 not discovered; 1-3 initial shards; initial placement empty (the system builds it) or ARBITRARY (each target on each shard with probability 1/3, 1/5 of the copies in_transfer: duplicates, pending transfers without partner, overload); a prefix of 0-4 events: rounds with or without a fault (a target update lost, a shard unreachable / not ready / refusing the configuration for that cycle), sidecar restarts (new process on the same store directory, default configuration), changes of the discovered set; then 14 fault-free rounds (cycle, every assigned copy scraped 3 times through the real proxy, 400 s pass). Real Coordinator (hook VerifRunOnce) against real TargetsManager+Service+Proxy per shard through Shard.APIGet/APIPost closures (JSON intact), a simulated StatefulSet following the last scale request, idle-since instants mapped between the world clock and the coordinator's clock. Observed after every step: every sidecar's /targets/status/ and /runtimeinfo/, POST bodies and scale requests of every cycle. non-trivial = all; distinct by input || bigshard, in every run: a real sidecar service takes an assignment of 4000 targets (a request body of 1.4 MB) and tracks and injects them all; waitloop: the cycle loop goes on after a cycle that returned an error", 'theorems': 'C03_place_or_grow C03_placed_or_counted C03_needed_space_grows_the_replica C03_relief_need_nonnegative C03_orphan_transfer_recovered C03_in_transfer_has_partner C03_tie_broken_by_position C03_one_normal_copy_after_cleaning C03_ripe_cycle_gives_clean_plan C03_world_follows_plan C03_ripe_world_becomes_clean C03_scrape_round_counts C03_settled_is_fixpoint C03_settled_updates_repeat_the_assignment C03_settled_world_unchanged C03_clean_from_the_second_round C03_cycle_places_or_grows C03_sizes_stay_counts C03_placed_or_at_cap C03_converges_in_regime C03_clean_held_world_is_settled C03_converged_stays (+ C03_settled_example, C03_converges_example, computed convergence example)', 'trusted_base': ["Model/World.v composes Model/Sidecar.v and Model/Coordinator.v with a StatefulSet and fault steps; it is run in LOCK STEP with the real closed loop: before every cycle the model builds the coordinator's input from ITS OWN sidecar states, the implementation's POST bodies / scale requests must be one of the model's outcomes (all schedules), and after every step every sidecar's reported state must equal the model's", 'the explorer and discovery are scripted by the harness (their behaviour is C20 / C17)', 'hooks: VerifRunOnce, VerifSetTimeNow'], 'assumptions': ['convergence bound: 14 fault-free rounds are enough for the generated sizes (<= 7 targets, <= 6 shards); a history that needs more would be reported as a violation', 'fairness: every assigned copy is scraped 3 times per round; a scale request takes effect before the next cycle; new shards start empty with the default configuration', 'the liveness statement itself (convergence within a bound from every well-formed world) is one theorem only in the regime without relief and consolidation (alleviation disabled, idle time-out 0): C03_converges_in_regime + C03_converged_stays; outside it see Properties/C03.v STATUS'], 'level_text': "Proof (partial): for every input and every iteration order - an eligible target that assignment visits is placed or its size is added to the needed space; needed space from relief is never negative; non-zero needed space with all shards in sync asks for more than the current count, and clamping keeps that below max-shard (place-or-grow for one whole cycle); an in_transfer copy without partner is normal after the recovery pass and nothing stays in_transfer without one; equal loads no longer keep both copies of a duplicate; the cleaning step as a whole - whatever the in-sync shards report of a discovered target (any number of duplicates, pending transfers with or without partner), once every copy was scraped three times it is on exactly one in-sync shard in normal state after this cycle's garbage collection and recovery pass, for every visiting order (C03_one_normal_copy_after_cleaning), and with no relief to do the whole planning part (gc, recovery, assignment) yields a clean plan - every entry a discovered target in normal state, no target on two shards (C03_ripe_cycle_gives_clean_plan); in the closed-loop model the sidecars hold exactly the final plan after a fault-free cycle (C03_world_follows_plan), so a ripe world with no relief to do is a clean world after ONE cycle (C03_ripe_world_becomes_clean); and the second half of the statement - a settled placement (all in sync, every copy of a discovered target in normal state on exactly one shard, no shard above a relief threshold, every discovered target held or not assignable, idle time-out off) is a fixpoint of the cycle under every schedule: no event, the scale request is the current count, whatever update is still sent repeats the reported assignment, and in the closed-loop model every sidecar keeps its status map and the shard count stays. BOUNDED CONVERGENCE AS ONE THEOREM in the regime without relief and consolidation (alleviation disabled, idle time-out 0, 0 < max-process, min-shard <= max-shard), over the closed-loop model: from EVERY well-formed world (duplicates, pending transfers, leftovers, any counters) and under EVERY iteration order, after max(2, max-shard - shards + 1) calm rounds the world is clean (every held target discovered, in normal state, on exactly one shard) and every eligible discovered target is held unless the replica reached max-shard (C03_converges_in_regime; steps C03_clean_from_the_second_round, C03_cycle_places_or_grows, C03_placed_or_at_cap, C03_sizes_stay_counts), and a clean world whose discovered targets are all held or unplaceable is settled and keeps its placement in every further round (C03_clean_held_world_is_settled, C03_converged_stays). Not proved: the bound outside that regime (relief / consolidation keep starting moves depending on the sizes of the workload); that is validated on the REAL closed loop (lock-step model agreement after every step, end states converged and stable).", 'level_note': 'Trusted: Coq kernel; hand-written closed-loop model validated in lock step; convergence is proved in the regime without relief / consolidation and checked on runs outside it.'},
+    'C06': {   'always_cmds': [['waitloop']],
+       'engines': [('loop', 120, 3000, ['-shardsize', '10', '-propok', 'c06_case'])], 'rule': "one PRNG: limits (process 60/100/200, head none/half/equal), max-shard 4-6, min-shard 0-1, max-idle 0 or 600 s, relief (alleviation) disabled in 1 of 4; 1-5 (1-7) targets with sizes from 1 to limit-1 (total >= series), 1/9 unhealthy, 1/10 not discovered; 1-3 initial shards; initial placement empty (the system builds it) or ARBITRARY (each target on each shard with probability 1/3, 1/5 of the copies in_transfer: duplicates, pending transfers without partner, overload); a prefix of 0-4 events: rounds with or without a fault (a target update lost, a shard unreachable / not ready / refusing the configuration for that cycle), sidecar restarts (new process on the same store directory, default configuration), changes of the discovered set; then 14 fault-free rounds (cycle, every assigned copy scraped 3 times through the real proxy, 400 s pass). Real Coordinator (hook VerifRunOnce) against real TargetsManager+Service+Proxy per shard through Shard.APIGet/APIPost closures (JSON intact), a simulated StatefulSet following the last scale request, idle-since instants mapped between the world clock and the coordinator's clock. Observed after every step: every sidecar's /targets/status/ and /runtimeinfo/, POST bodies and scale requests of every cycle. non-trivial = all; distinct by input || waitloop, in every run: the loop behind Coordinator.Run (utils/wait.RunUntil) with a cycle that returns an error (as a cycle does when Replicas() fails or no replica is listed): the loop goes on", 'theorems': 'C06_faults_preserve_wf_cycle C06_faults_preserve_wf_step C06_invariant_kept_by_faulty_cycle C06_no_target_lost_by_faults C06_no_target_in_transfer_for_ever C06_no_duplicate_for_ever C06_duplicate_resolved_in_one_cycle C06_one_copy_left_after_one_walk C06_none_unscraped C06_invariants_kept_by_every_history C06_recovers_after_faults (+ C06_recovers_example, computed recovery example)', 'trusted_base': ["Model/World.v composes Model/Sidecar.v and Model/Coordinator.v with a StatefulSet and fault steps; it is run in LOCK STEP with the real closed loop: before every cycle the model builds the coordinator's input from ITS OWN sidecar states, the implementation's POST bodies / scale requests must be one of the model's outcomes (all schedules), and after every step every sidecar's reported state must equal the model's", 'the explorer and discovery are scripted by the harness (their behaviour is C20 / C17)', 'hooks: VerifRunOnce, VerifSetTimeNow'], 'assumptions': ['convergence bound: 14 fault-free rounds are enough for the generated sizes (<= 7 targets, <= 6 shards); a history that needs more would be reported as a violation', 'fairness: every assigned copy is scraped 3 times per round; a scale request takes effect before the next cycle; new shards start empty with the default configuration', 'bounded recovery is one theorem only in the regime without relief and consolidation (alleviation disabled, idle time-out 0): C06_recovers_after_faults; outside it see Properties/C03.v STATUS'], 'level_text': 'Proof (partial): every fault step (lost update, unreachable / unready / out-of-sync shard, restart, scaling) and every cycle with any POST bodies keeps every sidecar well formed (C10 invariant), for all histories; the whole-world invariant is kept by every faulty cycle of the model under every schedule, and through every such history a discovered target that some sidecar holds is never lost (C06_no_target_lost_by_faults: composition of C01, C07, C08, C10); the states faults leave behind and the original code never left - an in_transfer copy without partner, equally loaded duplicates - are left in one cycle; an unscraped eligible target is placed or the replica grows. BOUNDED RECOVERY AS ONE THEOREM in the regime without relief and consolidation (alleviation disabled, idle time-out 0): after ANY history of cycles with faults under any iteration order, scrape rounds, ticks, sidecar restarts and changes of the discovered set, max(2, max-shard - shards + 1) calm rounds make the world clean and every eligible discovered target held by exactly one shard in normal state unless max-shard is reached (C06_recovers_after_faults, resting on C06_invariants_kept_by_every_history and the C03 convergence theorem). Not proved: the bound outside that regime (inherits C03); validated on the real closed loop with injected faults followed by 14 fault-free rounds.', 'level_note': 'Trusted: Coq kernel; hand-written closed-loop model validated in lock step; recovery is proved in the regime without relief / consolidation and checked on runs outside it.'},
     'C11': {
         'engines': [('inject', 300, 6000, ['-shardsize', '50']), ('sidecar', 200, 4000, ['-propok', 'c10_case', '-shardsize', '100'])],
         'rule': 'one PRNG: configuration TEXTS with/without global (+external labels, one of them with a value a generic YAML decoder re-types: 0755, 1.10, yes, 1e3, 0x1F, ~, 007, +1, on, a date, 0o17, 1_000, .5, No), 0-2 rule files, alerting with an Alertmanager using none/basic/'
@@ -350,7 +355,8 @@ PROPS = {
                       'on the real injector\'s output. Partial: "is a valid Prometheus configuration" and YAML rendering are observed, not proved.',
         'level_note': 'Trusted: Coq kernel; hand-written model at field granularity; Go projection functions; config library parsing.',
     },
-    'C15': {
+    'C15': {   'always_cmds': [['biggroup']],
+       
         'engines': [('thash', 160, 4000, ['-shardsize', '10'])],
         'rule': 'one PRNG: a scrape job (scheme http/https, 3 paths, 0-2 params) and one target group (0-2 group labels, 1-3 (1-5) targets over 7 '
                 'address shapes incl. no port / IPv6 / DNS, 0-3 labels each from valid, INVALID (a.b, x-y), __meta_, __param_q, __metrics_path__, '
@@ -359,7 +365,7 @@ PROPS = {
                 'common labels pulled up into the group IN A CHILD PROCESS; the group delivered twice, read through ActiveTargetsByHash; again in a '
                 'child process; plus 2 (4) single-edit variants (label value, added label, address, path, scheme, param, __param_ override, group '
                 'label). Observed per target: the hashed label set (private field read by reflect), URL string, ShardTarget.Hash. The model '
-                'recomputes every 64-bit value. non-trivial = base run has >= 1 active target; distinct by input',
+                'recomputes every 64-bit value. non-trivial = base run has >= 1 active target; distinct by input || biggroup, in every run: one group of 2701 entries, a copy of entry 0 (differing only in a __meta_ label) at index 1, 1500 and 2600: no hash is listed twice',
         'theorems': 'C15_function_of_content C15_merge C15_split_irrelevant C15_collapse C15_distinct_or_collision C15_labels_bytes_injective',
         'trusted_base': ['Model/Hash.v: bit-exact Gallina xxhash64 + FNV-1a-64 + %016d + labels byte layout, hand-written; tie = exact equality with every '
                          'hash the real discovery produced (parent and child processes)',
